@@ -21,6 +21,9 @@
                       matched by a (possibly empty) `Duo` run (`step_sim`), under the per-run hypotheses `runOK`
                       (= `NoForgeryRun` + `SingleSessionRun`, see there); `full_stack` is the composition.
             3e        the ghost seal records are records of datagrams `send_packets` really emitted.
+    Part 4  `KeyInv`  from an `Established` session (mirrored keys) the key part of `NoForgeryRun` is an invariant of
+                      every run without re-connection, so the hypothesis can be stated on datagrams alone
+                      (`NoForgeryRunD`, `noForgery_of_D`).
 -/
 import RenetVerif.Lemmas.System
 import RenetVerif.Lemmas.GlueInv
@@ -1697,13 +1700,17 @@ theorem rel_of_fresh (a : AEAD) {cfg : Cfg} {cid : Nat} {fs : FS} (h : RenetFres
 /-- **Established session** for client `cid`: the message layer is fresh (`RenetFresh`), and on the netcode layer the
     client is `Connected`, the server holds a connected slot for `cid` whose keys mirror the client's (the slot's receive
     key is the client's send key and vice versa), both use the same protocol id; nothing has been emitted yet.
-    (The theorems use only the `RenetFresh` part: key agreement is what makes genuine datagrams open at all — it is
-    needed for the session to make progress and for the examples, not for safety, because `NoForgeryRun` names the
-    key the receiver opened with.) -/
+    (`full_stack`, stated with the keyed hypothesis `NoForgeryRun`, uses only the `RenetFresh` part; the key agreement is
+    what lets the hypothesis be weakened to the datagram-level `NoForgeryRunD`, Part 4, and what makes genuine
+    datagrams open at all — the examples.) -/
 structure Established (cfg : Cfg) (cid : Nat) (fs : FS) : Prop extends RenetFresh cfg cid fs where
   cliConnected : fs.c.netcode.state = .connected
   cliId : fs.c.netcode.connectToken.clientId = cid
   slot : ∃ (i : Nat) (conn : Connection), fs.s.netcode.clients[i]? = some (some conn) ∧ conn.clientId = cid ∧ conn.state = .connected ∧
+    conn.receiveKey = fs.c.netcode.connectToken.clientToServerKey ∧
+    conn.sendKey = fs.c.netcode.connectToken.serverToClientKey
+  /-- no other slot holds `cid` with other keys (ids are unique in the table anyway: `GI.LockStep.nodup`) -/
+  slotKeys : ∀ o ∈ fs.s.netcode.clients, ∀ conn : Connection, o = some conn → conn.clientId = cid →
     conn.receiveKey = fs.c.netcode.connectToken.clientToServerKey ∧
     conn.sendKey = fs.c.netcode.connectToken.serverToClientKey
   proto : fs.s.netcode.protocolId = fs.c.netcode.connectToken.protocolId
@@ -1725,8 +1732,20 @@ theorem established_of {cfg : Cfg} {cid : Nat} {c : ClientGlue} {s : ServerGlue}
       (s.netcode.clients[0]?).map (fun o => o.map fun x => (x.clientId, x.state, x.receiveKey, x.sendKey)) =
         some (some (cid, .connected, c.netcode.connectToken.clientToServerKey,
           c.netcode.connectToken.serverToClientKey)) ∧
-      s.netcode.protocolId = c.netcode.connectToken.protocolId) : Established cfg cid (FS.start c s) := by
-  obtain ⟨f1, f2, f3, f4, f5, f6⟩ := h
+      s.netcode.protocolId = c.netcode.connectToken.protocolId ∧
+      s.netcode.clients.all (fun o => match o with
+        | some x => x.clientId != cid || (x.receiveKey == c.netcode.connectToken.clientToServerKey &&
+            x.sendKey == c.netcode.connectToken.serverToClientKey)
+        | none => true) = true) : Established cfg cid (FS.start c s) := by
+  obtain ⟨f1, f2, f3, f4, f5, f6, f7⟩ := h
+  have hkeys : ∀ o ∈ s.netcode.clients, ∀ conn : Connection, o = some conn → conn.clientId = cid →
+      conn.receiveKey = c.netcode.connectToken.clientToServerKey ∧
+      conn.sendKey = c.netcode.connectToken.serverToClientKey := by
+    intro o ho conn e hid
+    subst e
+    have := List.all_eq_true.mp f7 _ ho
+    simp only [hid, bne_self_eq_false, Bool.false_or, Bool.and_eq_true, beq_iff_eq] at this
+    exact this
   have hslot : ∃ (i : Nat) (conn : Connection), s.netcode.clients[i]? = some (some conn) ∧ conn.clientId = cid ∧
       conn.state = .connected ∧ conn.receiveKey = c.netcode.connectToken.clientToServerKey ∧
       conn.sendKey = c.netcode.connectToken.serverToClientKey := by
@@ -1747,7 +1766,7 @@ theorem established_of {cfg : Cfg} {cid : Nat} {c : ClientGlue} {s : ServerGlue}
     simp [SMap.find?]
   exact { cli := Or.inr f1, sorted := hsorted, srv := ⟨_, hfind, Or.inr rfl⟩, ySeq := rfl, sealedC := rfl,
           sealedS := rfl, subC := rfl, subCU := rfl, obtS := rfl, subS := rfl, subSU := rfl, obtC := rfl,
-          cliConnected := f3, cliId := f4, slot := hslot, proto := f6, emC := rfl, emS := rfl }
+          cliConnected := f3, cliId := f4, slot := hslot, slotKeys := hkeys, proto := f6, emC := rfl, emS := rfl }
 
 /-- the counter-range side conditions of `CountersOK` (C01S), for the client → server direction, on the FINAL state -/
 structure CountersUp (cfg : Cfg) (fs : FS) : Prop where
@@ -1970,5 +1989,821 @@ theorem run_emitted {a : AEAD} {cid : Nat} : ∀ (ops : List FSOp) (fs fs' : FS)
 
 theorem emitted_of_fresh {cfg : Cfg} {cid : Nat} {fs : FS} (h : RenetFresh cfg cid fs) : Emitted fs :=
   ⟨fun e he => (by rw [h.sealedC] at he; cases he), fun e he => (by rw [h.sealedS] at he; cases he)⟩
+
+
+/-! ## Part 4 : the key-free formulation of `NoForgeryRun`
+
+  `NoForgeryRun` names the key and protocol id the receiver opened a datagram with.  From an `Established` session —
+  where the server's slot for `cid` mirrors the keys of the client's connect token — and under `SingleSessionRun`, the
+  key part is an invariant of the run and the hypothesis can be stated on datagrams alone (`NoForgeryRunD`: whatever
+  surfaces a payload for this session is a copy of a datagram the peer's `generate_payload_packet` returned earlier in
+  this run).  The invariant: the client's connect token never changes; every slot of the server's netcode table that
+  holds client id `cid` carries the token's keys; the server's protocol id is the token's; hence every ghost record
+  was sealed under the token's key for its direction. -/
+
+/-- the session's keys and protocol id (read off the client's connect token) -/
+structure SessKeys where
+  c2s : Bytes
+  s2c : Bytes
+  proto : Nat
+
+/-- a slot holding `cid` carries the session keys -/
+def KSlot (cid : Nat) (k : SessKeys) (o : Option Connection) : Prop :=
+  ∀ c, o = some c → c.clientId = cid → c.receiveKey = k.c2s ∧ c.sendKey = k.s2c
+
+/-- the server-side key invariant, on (slot table, protocol id) -/
+def KI (cid : Nat) (k : SessKeys) (cl : List (Option Connection)) (proto : Nat) : Prop :=
+  proto = k.proto ∧ ∀ o ∈ cl, KSlot cid k o
+
+theorem KI.set_none {cid : Nat} {k : SessKeys} {cl : List (Option Connection)} {p : Nat} (h : KI cid k cl p) (i : Nat) :
+    KI cid k (cl.set i none) p := by
+  refine ⟨h.1, fun o ho => ?_⟩
+  rcases List.mem_or_eq_of_mem_set ho with ho | rfl
+  · exact h.2 o ho
+  · intro c hc; cases hc
+
+theorem KI.set_some {cid : Nat} {k : SessKeys} {cl : List (Option Connection)} {p : Nat} (h : KI cid k cl p) (i : Nat)
+    {c : Connection} (hc : KSlot cid k (some c)) : KI cid k (cl.set i (some c)) p := by
+  refine ⟨h.1, fun o ho => ?_⟩
+  rcases List.mem_or_eq_of_mem_set ho with ho | rfl
+  · exact h.2 o ho
+  · exact hc
+
+theorem KI.slot_like {cid : Nat} {k : SessKeys} {cl : List (Option Connection)} {p : Nat} (h : KI cid k cl p)
+    {c c' : Connection} (hm : some c ∈ cl) (e1 : c'.clientId = c.clientId) (e2 : c'.receiveKey = c.receiveKey)
+    (e3 : c'.sendKey = c.sendKey) : KSlot cid k (some c') := by
+  intro x hx hid
+  cases hx
+  rw [e2, e3]
+  exact h.2 _ hm c rfl (e1 ▸ hid)
+
+/-- the result does not re-open session `cid` -/
+def NotReopen (cid : Nat) : ServerResult → Prop
+  | .clientConnected id _ _ _ => id ≠ cid
+  | _ => True
+
+def KPost (cid : Nat) (k : SessKeys) : NetcodeServer.SRes → Prop
+  | .ok (r, s') => NotReopen cid r → KI cid k s'.clients s'.protocolId
+  | .err (_, s') => KI cid k s'.clients s'.protocolId
+  | .panic _ => True
+
+theorem kpost_bind {cid : Nat} {k : SessKeys} {α : Type} {x : Res (NetcodeError × NetcodeServer) α}
+    {f : α → NetcodeServer.SRes}
+    (hx : ∀ e s', x = .err (e, s') → KI cid k s'.clients s'.protocolId) (hf : ∀ v, x = .ok v → KPost cid k (f v)) :
+    KPost cid k (x >>= f) := by
+  cases x with
+  | ok v => exact hf v rfl
+  | err e => obtain ⟨e, s'⟩ := e; exact hx e s' rfl
+  | panic m => trivial
+
+theorem findOrAdd_proto (s : NetcodeServer) (e : ConnectTokenEntry) :
+    (s.findOrAddConnectTokenEntry e).1.protocolId = s.protocolId := by
+  unfold NetcodeServer.findOrAddConnectTokenEntry
+  extract_lets st
+  split <;> rfl
+
+theorem kpost_hcr {cid : Nat} {k : SessKeys} (a : AEAD) (s : NetcodeServer) (hk : KI cid k s.clients s.protocolId)
+    (addr : Addr) (vi : Bytes) (pid ex : Nat) (xn d : Bytes) :
+    KPost cid k (NetcodeServer.handleConnectionRequest a s addr vi pid ex xn d) := by
+  unfold NetcodeServer.handleConnectionRequest
+  split
+  · exact hk
+  split
+  · exact hk
+  split
+  · exact hk
+  split
+  · trivial
+  · exact hk
+  rename_i tok htok
+  extract_lets inHost ac ic mac
+  split
+  · exact hk
+  split
+  · exact fun _ => hk
+  split
+  · exact fun _ => hk
+  split
+  rename_i s1 added hfa
+  have hk1 : KI cid k s1.clients s1.protocolId := by
+    have e1 := GI.findOrAdd_clients s { address := addr, time := s.currentTime, mac := mac }
+    have e2 := findOrAdd_proto s { address := addr, time := s.currentTime, mac := mac }
+    rw [hfa] at e1 e2
+    show KI cid k s1.clients s1.protocolId
+    rw [e1, e2]; exact hk
+  split
+  · exact fun _ => hk1
+  split
+  · extract_lets s2
+    refine kpost_bind (fun e s' he => ?_) (fun out _ => ?_)
+    · rw [GI.lift_err he]; exact hk1
+    · refine kpost_bind (fun e s' he => absurd he GI.incU64_not_err) (fun g _ => ?_)
+      exact fun _ => hk1
+  · refine kpost_bind (fun e s' he => absurd he GI.incU64_not_err) (fun cs _ => ?_)
+    extract_lets s2
+    refine kpost_bind (fun e s' he => ?_) (fun pk _ => ?_)
+    · rw [GI.lift_err he]; exact hk1
+    refine kpost_bind (fun e s' he => ?_) (fun out _ => ?_)
+    · rw [GI.lift_err he]; exact hk1
+    refine kpost_bind (fun e s' he => absurd he GI.incU64_not_err) (fun g _ => ?_)
+    exact fun _ => hk1
+
+theorem kpost_ppi {cid : Nat} {k : SessKeys} (a : AEAD) (s : NetcodeServer) (hk : KI cid k s.clients s.protocolId)
+    (addr : Addr) (buf : Bytes) : KPost cid k (NetcodeServer.processPacketInternal a s addr buf) := by
+  unfold NetcodeServer.processPacketInternal
+  split
+  · exact hk
+  split
+  · -- datagram from the address of a connected client
+    rename_i slot client hfa
+    have hat := GI.findAddr_some hfa
+    have hmem : some client ∈ s.clients := List.mem_of_getElem? hat
+    split
+    rename_i r rp hdec
+    extract_lets client1 s1 client2
+    have hk1 : KI cid k s1.clients s1.protocolId := hk.set_some slot (hk.slot_like hmem rfl rfl rfl)
+    have hk0 : KI cid k (s1.clients.set slot none) s1.protocolId := hk1.set_none slot
+    have hk2 : KI cid k (s1.clients.set slot (some client2)) s1.protocolId :=
+      hk1.set_some slot (hk.slot_like hmem rfl rfl rfl)
+    split
+    · trivial
+    · exact hk1
+    · split
+      · split
+        · exact fun _ => hk0
+        · exact fun _ => hk2
+        · exact fun _ => hk2
+        · exact fun _ => hk1
+      · exact fun _ => hk1
+  split
+  · -- datagram from the address of a pending client
+    rename_i pending hpf
+    split
+    rename_i r rp hdec
+    extract_lets pending1 s1 pending2 s2 s3
+    split
+    · trivial
+    · exact hk
+    · split
+      · exact kpost_hcr a s2 hk _ _ _ _ _ _
+      · refine kpost_bind (fun e s' he => ?_) (fun ct _ => ?_)
+        · rw [GI.lift_err he]; exact hk
+        split
+        · exact fun _ => hk
+        split
+        · exact fun _ => hk
+        split
+        · refine kpost_bind (fun e s' he => ?_) (fun out _ => ?_)
+          · rw [GI.lift_err he]; exact hk
+          refine kpost_bind (fun e s' he => absurd he GI.incU64_not_err) (fun g _ => ?_)
+          exact fun _ => hk
+        · rename_i clientIndex hff
+          extract_lets pending3 packet
+          refine kpost_bind (fun e s' he => ?_) (fun out _ => ?_)
+          · rw [GI.lift_err he]; exact hk
+          refine kpost_bind (fun e s' he => absurd he GI.incU64_not_err) (fun sq _ => ?_)
+          extract_lets pending4
+          intro hne
+          refine KI.set_some (cid := cid) (k := k) hk clientIndex ?_
+          intro c hc hid
+          cases hc
+          exact absurd hid hne
+      · exact fun _ => hk
+  · -- datagram from an unknown address
+    split
+    rename_i r rp hdec
+    split
+    · trivial
+    · exact hk
+    · split
+      · exact kpost_hcr a s hk _ _ _ _ _ _
+      · trivial
+
+theorem ki_processPacket {cid : Nat} {k : SessKeys} {a : AEAD} {s s' : NetcodeServer} {addr : Addr} {buf : Bytes}
+    {r : ServerResult} (hk : KI cid k s.clients s.protocolId) (h : s.processPacket a addr buf = .ok (r, s'))
+    (hr : NotReopen cid r) : KI cid k s'.clients s'.protocolId := by
+  have hp := kpost_ppi (cid := cid) (k := k) a s hk addr buf
+  unfold NetcodeServer.processPacket at h
+  cases hx : NetcodeServer.processPacketInternal a s addr buf with
+  | ok v =>
+    rw [hx] at h hp
+    simp only [Res.ok.injEq] at h
+    subst h
+    exact hp hr
+  | err e =>
+    obtain ⟨e, s1⟩ := e
+    rw [hx] at h hp
+    simp only [Res.ok.injEq, Prod.mk.injEq] at h
+    obtain ⟨h1, h2⟩ := h
+    subst h1; subst h2
+    exact hp
+  | panic m => rw [hx] at h; cases h
+
+
+theorem ki_update {cid : Nat} {k : SessKeys} {s s' : NetcodeServer} {d : Nat} (hk : KI cid k s.clients s.protocolId)
+    (h : s.update d = .ok s') : KI cid k s'.clients s'.protocolId := by
+  unfold NetcodeServer.update at h
+  obtain ⟨now, -, h⟩ := CI.bind_ok_cases h
+  cases h
+  exact hk
+
+def KPostE (cid : Nat) (k : SessKeys) : Res Empty (ServerResult × NetcodeServer) → Prop
+  | .ok (_, s') => KI cid k s'.clients s'.protocolId
+  | _ => True
+
+theorem kpostE_bind {cid : Nat} {k : SessKeys} {α : Type} {x : Res Empty α}
+    {f : α → Res Empty (ServerResult × NetcodeServer)} (hf : ∀ v, x = .ok v → KPostE cid k (f v)) :
+    KPostE cid k (x >>= f) := by
+  cases x with
+  | ok v => exact hf v rfl
+  | err e => exact e.elim
+  | panic m => trivial
+
+theorem kpostE_updateClient {cid : Nat} {k : SessKeys} (a : AEAD) (s : NetcodeServer)
+    (hk : KI cid k s.clients s.protocolId) (id : Nat) : KPostE cid k (s.updateClient a id) := by
+  unfold NetcodeServer.updateClient
+  split
+  · exact hk
+  rename_i slot hslot
+  split
+  · exact hk
+  rename_i client hget
+  have hmem : some client ∈ s.clients := List.mem_of_getElem? (GI.getD_eq hget)
+  refine kpostE_bind (fun timedOut _ => ?_)
+  extract_lets client1 s1 packet
+  split
+  · split
+    · trivial
+    · exact hk.set_none slot
+    · exact hk.set_none slot
+  · generalize (durAdd client1.lastPacketSendTime C.NETCODE_SEND_RATE_NS "server.rs update_client: last_packet_send_time + SEND_RATE" : Res Empty Nat) = x
+    apply kpostE_bind
+    intro due _
+    split
+    · split
+      · trivial
+      · exact hk
+      · refine kpostE_bind (fun sq _ => ?_)
+        extract_lets client2
+        refine hk.set_some slot ?_
+        have e1 : client1.clientId = client.clientId := by
+          show (if timedOut = true then _ else _ : Connection).clientId = _
+          split <;> rfl
+        have e2 : client1.receiveKey = client.receiveKey := by
+          show (if timedOut = true then _ else _ : Connection).receiveKey = _
+          split <;> rfl
+        have e3 : client1.sendKey = client.sendKey := by
+          show (if timedOut = true then _ else _ : Connection).sendKey = _
+          split <;> rfl
+        exact hk.slot_like hmem e1 e2 e3
+    · exact hk
+
+theorem ki_updateClient {cid : Nat} {k : SessKeys} {a : AEAD} {s s' : NetcodeServer} {id : Nat} {r : ServerResult}
+    (hk : KI cid k s.clients s.protocolId) (h : s.updateClient a id = .ok (r, s')) :
+    KI cid k s'.clients s'.protocolId := by
+  have hp := kpostE_updateClient (cid := cid) (k := k) a s hk id
+  rw [h] at hp
+  exact hp
+
+theorem ki_disconnect {cid : Nat} {k : SessKeys} {a : AEAD} {s s' : NetcodeServer} {id : Nat} {r : ServerResult}
+    (hk : KI cid k s.clients s.protocolId) (h : s.disconnect a id = .ok (r, s')) :
+    KI cid k s'.clients s'.protocolId := by
+  unfold NetcodeServer.disconnect at h
+  split at h
+  · cases h; exact hk
+  · split at h
+    · cases h
+    · dsimp only at h
+      split at h
+      · cases h
+      · cases h; exact hk.set_none _
+      · cases h; exact hk.set_none _
+
+theorem ki_generatePayloadPacket {cid : Nat} {k : SessKeys} {a : AEAD} {s s' : NetcodeServer} {id : Nat} {pl : Bytes}
+    {dg : Addr × Bytes} (hk : KI cid k s.clients s.protocolId) (h : s.generatePayloadPacket a id pl = .ok (dg, s')) :
+    KI cid k s'.clients s'.protocolId := by
+  unfold NetcodeServer.generatePayloadPacket at h
+  split at h
+  · cases h
+  · split at h
+    · rename_i slot client hslot hcl
+      have hmem : some client ∈ s.clients := List.mem_of_getElem? (GI.getD_eq (NcAead.Sv.byId_consistent hslot hcl))
+      rw [NcAead.Res.bind_eq_ok] at h
+      obtain ⟨out', -, h⟩ := h
+      rw [NcAead.Res.bind_eq_ok] at h
+      obtain ⟨sq, -, h⟩ := h
+      cases h
+      exact hk.set_some slot (hk.slot_like hmem rfl rfl rfl)
+    · cases h
+
+
+/-! #### the server glue keeps the key invariant -/
+
+theorem handleLoop_ki {cid : Nat} {k : SessKeys} {α : Type}
+    (f : NetcodeServer → α → Res Empty (ServerResult × NetcodeServer)) (OK : NetcodeServer → List α → Prop)
+    (hstep : ∀ ns x rest r ns', OK ns (x :: rest) → KI cid k ns.clients ns.protocolId → f ns x = .ok (r, ns') →
+      KI cid k ns'.clients ns'.protocolId ∧ OK ns' rest) :
+    ∀ (l : List α) (g g' : ServerGlue) (out out' : Array Dgram), GI.handleLoop f g l out = .ok (g', out') →
+    OK g.netcode l → KI cid k g.netcode.clients g.netcode.protocolId → KI cid k g'.netcode.clients g'.netcode.protocolId
+  | [], g, g', out, out', h, _, hk => by cases h; exact hk
+  | x :: rest, g, g', out, out', h, hok, hk => by
+    obtain ⟨r, ns, rs, out1, h1, h2, h3⟩ := GI.handleLoop_cons h
+    obtain ⟨hk1, hok1⟩ := hstep _ _ _ _ _ hok hk h1
+    exact handleLoop_ki f OK hstep rest _ g' out1 out' h3 hok1 hk1
+
+theorem srvResSS_notReopen {cid : Nat} {r : ServerResult} (h : srvResSS cid r = true) : NotReopen cid r := by
+  cases r with
+  | clientConnected id addr ud p =>
+    show id ≠ cid
+    exact of_decide_eq_true h
+  | none => trivial
+  | packetToSend addr p => trivial
+  | payload id p => trivial
+  | clientDisconnected id addr p => trivial
+
+theorem serverUpdate_ki {a : AEAD} {cid : Nat} {k : SessKeys} {g g' : ServerGlue} {dt : Nat} {inbox : List Dgram}
+    {out : Array Dgram} (h : serverUpdate a g dt inbox = .ok (g', out))
+    (hss : (match g.netcode.update dt with
+      | .ok ns0 => srvInboxSS a cid ns0 inbox
+      | _ => true) = true)
+    (hk : KI cid k g.netcode.clients g.netcode.protocolId) : KI cid k g'.netcode.clients g'.netcode.protocolId := by
+  obtain ⟨ns0, g1, out1, g2, out2, h0, l1, l2, l3⟩ := GI.serverUpdate_unfold h
+  rw [h0] at hss
+  simp only at hss
+  have hk0 := ki_update hk h0
+  have hk1 := handleLoop_ki (cid := cid) (k := k) (GI.ppF a) (fun ns l => srvInboxSS a cid ns l = true)
+    (by
+      intro ns x rest r ns' hok hkk hx
+      obtain ⟨addr, buf⟩ := x
+      have hx' : ns.processPacket a addr buf = .ok (r, ns') := hx
+      simp only [srvInboxSS] at hok
+      rw [hx'] at hok
+      simp only [Bool.and_eq_true] at hok
+      exact ⟨ki_processPacket hkk hx' (srvResSS_notReopen hok.1), hok.2⟩)
+    inbox _ g1 _ out1 l1 hss hk0
+  have hk2 := handleLoop_ki (cid := cid) (k := k) (GI.ucF a) (fun _ _ => True)
+    (fun ns x rest r ns' _ hkk hx => ⟨ki_updateClient hkk hx, trivial⟩) _ g1 g2 out1 out2 l2 trivial hk1
+  exact handleLoop_ki (cid := cid) (k := k) (GI.dcF a) (fun _ _ => True)
+    (fun ns x rest r ns' _ hkk hx => ⟨ki_disconnect hkk hx, trivial⟩) _ g2 g' out2 out l3 trivial hk2
+
+theorem serverDisconnectAll_ki {a : AEAD} {cid : Nat} {k : SessKeys} {g g' : ServerGlue} {out : Array Dgram}
+    (h : serverDisconnectAll a g = .ok (g', out)) (hk : KI cid k g.netcode.clients g.netcode.protocolId) :
+    KI cid k g'.netcode.clients g'.netcode.protocolId := by
+  unfold serverDisconnectAll at h
+  rw [GI.idLoop_eq] at h
+  exact handleLoop_ki (cid := cid) (k := k) (GI.dcF a) (fun _ _ => True)
+    (fun ns x rest r ns' _ hkk hx => ⟨ki_disconnect hkk hx, trivial⟩) _ g g' _ out h trivial hk
+
+theorem findById_mem : ∀ {cl : List (Option Connection)} {id : Nat} {c : Connection}, findClientById cl id = some c →
+    some c ∈ cl
+  | [], _, _, h => by cases h
+  | none :: rest, id, c, h => by
+    simp only [findClientById] at h
+    exact List.mem_cons_of_mem _ (findById_mem h)
+  | some c0 :: rest, id, c, h => by
+    simp only [findClientById] at h
+    split at h
+    · cases h; exact List.mem_cons_self
+    · exact List.mem_cons_of_mem _ (findById_mem h)
+
+/-- the records of the server's seal loop for `cid` carry the session's server-to-client key and protocol id, and the
+    loop keeps the invariant -/
+theorem sealsS_keys {a : AEAD} {cid : Nat} {k : SessKeys} : ∀ (ps : List Bytes) (ns : NetcodeServer),
+    KI cid k ns.clients ns.protocolId → ∀ e ∈ sealsS a cid ns ps, e.key = k.s2c ∧ e.proto = k.proto
+  | [], _, _, e, he => by cases he
+  | p :: rest, ns, hk, e, he => by
+    simp only [sealsS] at he
+    cases hg : ns.generatePayloadPacket a cid p with
+    | panic m => rw [hg] at he; cases he
+    | err e' => rw [hg] at he; cases he
+    | ok v =>
+      obtain ⟨⟨addr, d⟩, ns1⟩ := v
+      rw [hg] at he
+      dsimp only at he
+      rcases List.mem_cons.mp he with rfl | he
+      · obtain ⟨cl, hcl, -, -⟩ := srvGen_spec hg
+        simp only [hcl, Option.map_some, Option.getD_some]
+        exact ⟨(hk.2 _ (findById_mem hcl) cl rfl (GI.findById_some hcl)).2, hk.1⟩
+      · exact sealsS_keys rest ns1 (ki_generatePayloadPacket hk hg) e he
+
+theorem serverSendClient_ki {a : AEAD} {cid : Nat} {k : SessKeys} (id : Nat) : ∀ (ps : List Bytes) (ns ns' : NetcodeServer)
+    (out out' : Array Dgram), serverSendClient a ns id ps out = .ok (ns', out') → KI cid k ns.clients ns.protocolId →
+    KI cid k ns'.clients ns'.protocolId
+  | [], ns, ns', out, out', h, hk => by cases h; exact hk
+  | p :: rest, ns, ns', out, out', h, hk => by
+    simp only [serverSendClient] at h
+    cases hg : ns.generatePayloadPacket a id p with
+    | panic m => rw [hg] at h; cases h
+    | err e' => rw [hg] at h; cases h; exact hk
+    | ok v =>
+      obtain ⟨⟨addr, d⟩, ns1⟩ := v
+      rw [hg] at h
+      dsimp only at h
+      exact serverSendClient_ki id rest ns1 ns' _ out' h (ki_generatePayloadPacket hk hg)
+
+theorem serverSendLoop_ki {a : AEAD} {cid : Nat} {k : SessKeys} : ∀ (l : List Nat) (g g' : ServerGlue)
+    (out out' : Array Dgram), serverSendLoop a g l out = .ok (g', out') → KI cid k g.netcode.clients g.netcode.protocolId →
+    KI cid k g'.netcode.clients g'.netcode.protocolId ∧ ∀ e ∈ srvSeals a cid g l, e.key = k.s2c ∧ e.proto = k.proto
+  | [], g, g', out, out', h, hk => by
+    cases h
+    exact ⟨hk, fun e he => by cases he⟩
+  | id :: rest, g, g', out, out', h, hk => by
+    obtain ⟨rs, ps, ns, out1, h1, h2, h3⟩ := GI.sendLoop_cons h
+    obtain ⟨o2', h2'⟩ := sendClient_out_irrel a id ps _ _ _ _ #[] h2
+    have hk1 := serverSendClient_ki (cid := cid) (k := k) id ps _ _ _ _ h2 hk
+    obtain ⟨hk2, hrec⟩ := serverSendLoop_ki rest _ g' out1 out' h3 hk1
+    refine ⟨hk2, ?_⟩
+    intro e he
+    simp only [srvSeals, h1, h2'] at he
+    rcases List.mem_append.mp he with he1 | he1
+    · by_cases e' : id = cid
+      · rw [if_pos e'] at he1
+        subst e'
+        exact sealsS_keys ps g.netcode hk e he1
+      · rw [if_neg e'] at he1
+        cases he1
+    · exact hrec e he1
+
+/-! #### the client glue keeps its connect token -/
+
+theorem tok_update {a : AEAD} {c c' : NetcodeClient} {d : Nat} {o : Option (Bytes × Addr)}
+    (h : NetcodeClient.update a c d = .ok (o, c')) : c'.connectToken = c.connectToken := by
+  obtain ⟨e, c1, h1, h2⟩ := NcAead.Cl.update_eq h
+  have t1 := (NcAead.Cl.uis_spec h1).1
+  rcases h2 with ⟨-, -, rfl⟩ | ⟨-, h2⟩
+  · exact t1
+  · rw [(NcAead.Cl.gen_spec h2).1, t1]
+
+theorem clientRecvLoop_tok (a : AEAD) : ∀ (l : List Dgram) (g g' : ClientGlue), clientRecvLoop a g l = .ok g' →
+    g'.netcode.connectToken = g.netcode.connectToken
+  | [], g, g', h => by cases h; rfl
+  | (addr, buf) :: rest, g, g', h => by
+    simp only [clientRecvLoop] at h
+    split at h
+    · exact clientRecvLoop_tok a rest g g' h
+    · obtain ⟨⟨p, nc⟩, h1, h2⟩ := CI.bind_ok_cases h
+      have t1 := (NcAead.Cl.recv_spec h1).1
+      cases p with
+      | none =>
+        simp only at h2
+        rw [clientRecvLoop_tok a rest _ g' h2]; exact t1
+      | some p =>
+        simp only at h2
+        obtain ⟨rc, h3, h4⟩ := CI.bind_ok_cases h2
+        rw [clientRecvLoop_tok a rest _ g' h4]; exact t1
+
+theorem clientUpdate_tok {a : AEAD} {g : ClientGlue} {dt : Nat} {inbox : List Dgram} {o : ClientOut}
+    (h : clientUpdate a g dt inbox = .ok o) : o.g.netcode.connectToken = g.netcode.connectToken := by
+  cases hn : g.netcode.disconnectReason with
+  | some reason =>
+    rw [GI.clientUpdate_netcode_disconnected hn] at h
+    cases h; rfl
+  | none =>
+    cases hr : g.renet.disconnectReason with
+    | some error =>
+      rw [GI.clientUpdate_renet_disconnected hn hr] at h
+      split at h
+      · cases h
+      · cases h; rfl
+      · cases h; rfl
+    | none =>
+      rw [GI.clientUpdate_alive hn hr] at h
+      obtain ⟨g1, h1, h2⟩ := CI.bind_ok_cases h
+      obtain ⟨⟨o', nc⟩, h3, h4⟩ := CI.bind_ok_cases h2
+      have t1 := clientRecvLoop_tok a inbox _ g1 h1
+      have t2 := tok_update h3
+      cases o' with
+      | none => cases h4; exact t2.trans t1
+      | some v => obtain ⟨pkt, addr⟩ := v; cases h4; exact t2.trans t1
+
+theorem clientSendLoop_tok (a : AEAD) : ∀ (ps : List Bytes) (nc nc' : NetcodeClient) (out out' : Array Dgram)
+    (e : Option NetcodeError), clientSendLoop a nc ps out = .ok (e, nc', out') →
+    nc'.connectToken = nc.connectToken ∧
+    ∀ x ∈ sealsC a nc ps, x.key = nc.connectToken.clientToServerKey ∧ x.proto = nc.connectToken.protocolId
+  | [], nc, nc', out, out', e, h => by
+    cases h
+    exact ⟨rfl, fun x hx => by cases hx⟩
+  | p :: rest, nc, nc', out, out', e, h => by
+    simp only [clientSendLoop] at h
+    simp only [sealsC]
+    cases hg : nc.generatePayloadPacket a p with
+    | panic m => rw [hg] at h; cases h
+    | err e' =>
+      rw [hg] at h
+      cases h
+      exact ⟨rfl, fun x hx => by cases hx⟩
+    | ok v =>
+      obtain ⟨⟨addr, d⟩, nc1⟩ := v
+      rw [hg] at h
+      dsimp only at h ⊢
+      have t1 := (NcAead.Cl.payload_spec hg).2.1
+      obtain ⟨t2, hrec⟩ := clientSendLoop_tok a rest nc1 nc' _ out' e h
+      refine ⟨t2.trans t1, ?_⟩
+      intro x hx
+      rcases List.mem_cons.mp hx with rfl | hx
+      · exact ⟨rfl, rfl⟩
+      · rw [← t1]; exact hrec x hx
+
+theorem clientSendPackets_tok {a : AEAD} {g g' : ClientGlue} {res : Except TransportError Unit} {out : Array Dgram}
+    (h : clientSendPackets a g = .ok (res, g', out)) :
+    g'.netcode.connectToken = g.netcode.connectToken ∧
+    ∀ x ∈ cliSeals a g, x.key = g.netcode.connectToken.clientToServerKey ∧ x.proto = g.netcode.connectToken.protocolId := by
+  unfold clientSendPackets at h
+  unfold cliSeals
+  cases hn : g.netcode.disconnectReason with
+  | some r =>
+    rw [hn] at h
+    cases h
+    exact ⟨rfl, fun x hx => by cases hx⟩
+  | none =>
+    rw [hn] at h
+    dsimp only at h ⊢
+    obtain ⟨⟨rc, packets⟩, h1, h2⟩ := CI.bind_ok_cases h
+    obtain ⟨⟨e, nc, out1⟩, h3, h4⟩ := CI.bind_ok_cases h2
+    rw [h1]
+    dsimp only
+    have := clientSendLoop_tok a packets _ _ _ _ _ h3
+    cases e with
+    | none => cases h4; exact this
+    | some e => cases h4; exact this
+
+theorem clientDisconnect_tok {a : AEAD} {g g' : ClientGlue} {out : Array Dgram}
+    (h : clientDisconnect a g = .ok (g', out)) : g'.netcode.connectToken = g.netcode.connectToken := by
+  rw [GI.clientDisconnect_spec] at h
+  split at h
+  · cases h; rfl
+  · split at h
+    · cases h
+    · cases h; rfl
+    · cases h; rfl
+
+
+/-! #### the key invariant along a run, and `NoForgeryRunD` -/
+
+def keysOf (t : ConnectToken) : SessKeys := ⟨t.clientToServerKey, t.serverToClientKey, t.protocolId⟩
+
+/-- the client still holds connect token `tok`; every server slot for `cid` carries its keys, the server's protocol
+    id is the token's; every ghost record was sealed under the token's key for its direction -/
+structure KeyInv (cid : Nat) (tok : ConnectToken) (fs : FS) : Prop where
+  tokC : fs.c.netcode.connectToken = tok
+  srv : KI cid (keysOf tok) fs.s.netcode.clients fs.s.netcode.protocolId
+  recC : ∀ e ∈ fs.sealedC, e.key = tok.clientToServerKey ∧ e.proto = tok.protocolId
+  recS : ∀ e ∈ fs.sealedS, e.key = tok.serverToClientKey ∧ e.proto = tok.protocolId
+
+theorem keyInv_of_established {cfg : Cfg} {cid : Nat} {fs : FS} (h : Established cfg cid fs) :
+    KeyInv cid fs.c.netcode.connectToken fs :=
+  ⟨rfl, ⟨h.proto, fun o ho c e hid => h.slotKeys o ho c e hid⟩,
+    fun e he => (by rw [h.sealedC] at he; cases he), fun e he => (by rw [h.sealedS] at he; cases he)⟩
+
+theorem step_keyInv {a : AEAD} {cid : Nat} {tok : ConnectToken} {fs fs' : FS} {op : FSOp} (h : KeyInv cid tok fs)
+    (hss : opSS a cid fs op = true) (hs : fs.step a cid op = some fs') : KeyInv cid tok fs' := by
+  cases op with
+  | cliSend ch m => simp only [FS.step] at hs; split at hs <;> cases hs; exact ⟨h.tokC, h.srv, h.recC, h.recS⟩
+  | cliRecv ch => simp only [FS.step] at hs; split at hs <;> cases hs <;> exact ⟨h.tokC, h.srv, h.recC, h.recS⟩
+  | cliTick dt => simp only [FS.step] at hs; split at hs <;> cases hs; exact ⟨h.tokC, h.srv, h.recC, h.recS⟩
+  | cliDisconnect => simp only [FS.step, Option.some.injEq] at hs; subst hs; exact ⟨h.tokC, h.srv, h.recC, h.recS⟩
+  | srvSend ch m => simp only [FS.step] at hs; split at hs <;> cases hs; exact ⟨h.tokC, h.srv, h.recC, h.recS⟩
+  | srvRecv ch => simp only [FS.step] at hs; split at hs <;> cases hs <;> exact ⟨h.tokC, h.srv, h.recC, h.recS⟩
+  | srvTick dt => simp only [FS.step] at hs; split at hs <;> cases hs; exact ⟨h.tokC, h.srv, h.recC, h.recS⟩
+  | srvDisconnect => simp only [FS.step, Option.some.injEq] at hs; subst hs; exact ⟨h.tokC, h.srv, h.recC, h.recS⟩
+  | cliUpdate d inbox =>
+    simp only [FS.step] at hs
+    split at hs
+    · rename_i o ho
+      cases hs
+      exact ⟨(clientUpdate_tok ho).trans h.tokC, h.srv, h.recC, h.recS⟩
+    · cases hs
+  | cliTransportDisconnect =>
+    simp only [FS.step] at hs
+    split at hs
+    · rename_i g' out ho
+      cases hs
+      exact ⟨(clientDisconnect_tok ho).trans h.tokC, h.srv, h.recC, h.recS⟩
+    · cases hs
+  | cliSendPackets =>
+    simp only [FS.step] at hs
+    split at hs
+    · rename_i res g' out ho
+      cases hs
+      obtain ⟨t1, hrec⟩ := clientSendPackets_tok ho
+      refine ⟨t1.trans h.tokC, h.srv, ?_, h.recS⟩
+      intro e he
+      rcases List.mem_append.mp he with he | he
+      · exact h.recC e he
+      · have := hrec e he
+        rw [h.tokC] at this
+        exact this
+    · cases hs
+  | srvUpdate d inbox =>
+    simp only [FS.step] at hs
+    split at hs
+    · rename_i g' out ho
+      cases hs
+      simp only [opSS] at hss
+      exact ⟨h.tokC, serverUpdate_ki ho hss h.srv, h.recC, h.recS⟩
+    · cases hs
+  | srvDisconnectAll =>
+    simp only [FS.step] at hs
+    split at hs
+    · rename_i g' out ho
+      cases hs
+      exact ⟨h.tokC, serverDisconnectAll_ki ho h.srv, h.recC, h.recS⟩
+    · cases hs
+  | srvSendPackets =>
+    simp only [FS.step] at hs
+    split at hs
+    · rename_i g' out ho
+      cases hs
+      obtain ⟨hk', hrec⟩ := serverSendLoop_ki (cid := cid) (k := keysOf tok) _ _ _ _ _ ho h.srv
+      refine ⟨h.tokC, hk', h.recC, ?_⟩
+      intro e he
+      rcases List.mem_append.mp he with he | he
+      · exact h.recS e he
+      · exact hrec e he
+    · cases hs
+
+/-- the datagram-only test: some ghost record has this datagram -/
+def srvResNFD (cid : Nat) (L : List Sealed) (buf : Bytes) : ServerResult → Bool
+  | .payload id _ => if id = cid then L.any (fun e => e.dgram == buf) else true
+  | _ => true
+
+def srvInboxNFD (a : AEAD) (cid : Nat) (L : List Sealed) : NetcodeServer → List Dgram → Bool
+  | _, [] => true
+  | ns, (addr, buf) :: rest =>
+    match ns.processPacket a addr buf with
+    | .ok (r, ns') => srvResNFD cid L buf r && srvInboxNFD a cid L ns' rest
+    | _ => true
+
+def cliInboxNFD (a : AEAD) (L : List Sealed) : NetcodeClient → List Dgram → Bool
+  | _, [] => true
+  | nc, (addr, buf) :: rest =>
+    if addr ≠ nc.serverAddr then cliInboxNFD a L nc rest else
+    match nc.processPacket a buf with
+    | .ok (some _, nc') => L.any (fun e => e.dgram == buf) && cliInboxNFD a L nc' rest
+    | .ok (none, nc') => cliInboxNFD a L nc' rest
+    | _ => true
+
+def opNFD (a : AEAD) (cid : Nat) (fs : FS) : FSOp → Bool
+  | .srvUpdate d inbox =>
+    match fs.s.netcode.update d with
+    | .ok ns0 => srvInboxNFD a cid fs.sealedC ns0 inbox
+    | _ => true
+  | .cliUpdate _ inbox =>
+    match fs.c.netcode.disconnectReason, fs.c.renet.disconnectReason with
+    | none, none => cliInboxNFD a fs.sealedS fs.c.netcode inbox
+    | _, _ => true
+  | _ => true
+
+def runNFD (a : AEAD) (cid : Nat) (fs : FS) : List FSOp → Bool
+  | [] => true
+  | op :: ops =>
+    opNFD a cid fs op &&
+    match fs.step a cid op with
+    | some fs' => runNFD a cid fs' ops
+    | none => true
+
+theorem runNFD_prefix (a : AEAD) (cid : Nat) : ∀ (l1 l2 : List FSOp) (fs : FS),
+    runNFD a cid fs (l1 ++ l2) = true → runNFD a cid fs l1 = true
+  | [], _, _, _ => rfl
+  | op :: l1, l2, fs, h => by
+    simp only [List.cons_append, runNFD, Bool.and_eq_true] at h ⊢
+    refine ⟨h.1, ?_⟩
+    cases hs : fs.step a cid op with
+    | none => rfl
+    | some fs' => rw [hs] at h; exact runNFD_prefix a cid l1 l2 fs' h.2
+
+/-- **`NoForgeryRunD`** (datagram level): whenever, in this run, `NetcodeServer::process_packet` surfaces
+    `Payload{client_id = cid}` or the client's `NetcodeClient::process_packet` surfaces a payload, the datagram it was
+    given is byte-identical to one the PEER's `generate_payload_packet` returned earlier in this run (for this session). -/
+def NoForgeryRunD (a : AEAD) (cid : Nat) (fs : FS) (ops : List FSOp) : Prop := runNFD a cid fs ops = true
+
+instance (a : AEAD) (cid : Nat) (fs : FS) (ops : List FSOp) : Decidable (NoForgeryRunD a cid fs ops) :=
+  inferInstanceAs (Decidable (_ = true))
+
+theorem any_dgram {L : List Sealed} {buf : Bytes} (h : L.any (fun e => e.dgram == buf) = true) :
+    ∃ e ∈ L, e.dgram = buf := by
+  obtain ⟨e, he, hb⟩ := List.any_eq_true.mp h
+  exact ⟨e, he, by simpa using hb⟩
+
+theorem srvInboxNF_of_D {a : AEAD} {cid : Nat} {k : SessKeys} {L : List Sealed}
+    (hL : ∀ e ∈ L, e.key = k.c2s ∧ e.proto = k.proto) : ∀ (inbox : List Dgram) (ns : NetcodeServer),
+    KI cid k ns.clients ns.protocolId → srvInboxSS a cid ns inbox = true → srvInboxNFD a cid L ns inbox = true →
+    srvInboxNF a cid L ns inbox = true
+  | [], _, _, _, _ => rfl
+  | (addr, buf) :: rest, ns, hk, hss, hd => by
+    simp only [srvInboxSS] at hss
+    simp only [srvInboxNFD] at hd
+    simp only [srvInboxNF]
+    cases hx : ns.processPacket a addr buf with
+    | panic m => rfl
+    | err e => exact e.elim
+    | ok v =>
+      obtain ⟨r, ns'⟩ := v
+      rw [hx] at hss hd
+      simp only [Bool.and_eq_true] at hss hd ⊢
+      refine ⟨?_, srvInboxNF_of_D hL rest ns' (ki_processPacket hk hx (srvResSS_notReopen hss.1)) hss.2 hd.2⟩
+      cases r with
+      | payload id p =>
+        simp only [srvResNF]
+        split
+        · rename_i e
+          obtain ⟨slot, client, sq, rp, hf, hid, -, -⟩ := GI.processPacket_auth hx
+          rw [hf]
+          have hres := hd.1
+          simp only [srvResNFD, if_pos e] at hres
+          obtain ⟨x, hxL, hxb⟩ := any_dgram hres
+          have hmem : some client ∈ ns.clients := List.mem_of_getElem? (GI.findAddr_some hf)
+          have hkeys := hk.2 _ hmem client rfl (hid.trans e)
+          exact hasRec_iff.mpr ⟨x, hxL, hxb, by rw [(hL x hxL).1, hkeys.1], by rw [(hL x hxL).2, hk.1]⟩
+        · rfl
+      | none => rfl
+      | packetToSend addr' p => rfl
+      | clientConnected id addr' ud p => rfl
+      | clientDisconnected id addr' p => rfl
+
+theorem cliInboxOK_of_D {a : AEAD} {tok : ConnectToken} {L : List Sealed}
+    (hL : ∀ e ∈ L, e.key = tok.serverToClientKey ∧ e.proto = tok.protocolId) : ∀ (inbox : List Dgram) (nc : NetcodeClient),
+    nc.connectToken = tok → cliInboxNFD a L nc inbox = true → cliInboxOK a L nc inbox = true
+  | [], _, _, _ => rfl
+  | (addr, buf) :: rest, nc, ht, hd => by
+    simp only [cliInboxNFD] at hd
+    simp only [cliInboxOK]
+    split
+    · rename_i hne
+      rw [if_pos hne] at hd
+      exact cliInboxOK_of_D hL rest nc ht hd
+    · rename_i hne
+      rw [if_neg hne] at hd
+      cases hx : nc.processPacket a buf with
+      | panic m => rfl
+      | err e => exact e.elim
+      | ok v =>
+        obtain ⟨p, nc'⟩ := v
+        rw [hx] at hd
+        have ht' : nc'.connectToken = tok := (NcAead.Cl.recv_spec hx).1.trans ht
+        cases p with
+        | none => exact cliInboxOK_of_D hL rest nc' ht' hd
+        | some p =>
+          simp only [Bool.and_eq_true] at hd ⊢
+          obtain ⟨x, hxL, hxb⟩ := any_dgram hd.1
+          exact ⟨hasRec_iff.mpr ⟨x, hxL, hxb, by rw [(hL x hxL).1, ht], by rw [(hL x hxL).2, ht]⟩,
+            cliInboxOK_of_D hL rest nc' ht' hd.2⟩
+
+theorem opNF_of_D {a : AEAD} {cid : Nat} {tok : ConnectToken} {fs : FS} {op : FSOp} (h : KeyInv cid tok fs)
+    (hss : opSS a cid fs op = true) (hd : opNFD a cid fs op = true) : opNF a cid fs op = true := by
+  cases op with
+  | srvUpdate d inbox =>
+    simp only [opSS] at hss
+    simp only [opNFD] at hd
+    simp only [opNF]
+    cases hu : fs.s.netcode.update d with
+    | panic m => rfl
+    | err e => exact e.elim
+    | ok ns0 =>
+      rw [hu] at hss hd
+      exact srvInboxNF_of_D (k := keysOf tok) h.recC inbox ns0 (ki_update h.srv hu) hss hd
+  | cliUpdate d inbox =>
+    simp only [opNFD] at hd
+    simp only [opNF]
+    cases hn : fs.c.netcode.disconnectReason with
+    | some r => rfl
+    | none =>
+      cases hr : fs.c.renet.disconnectReason with
+      | some r => rfl
+      | none =>
+        rw [hn, hr] at hd
+        exact cliInboxOK_of_D h.recS inbox _ h.tokC hd
+  | cliSend ch m => rfl
+  | cliRecv ch => rfl
+  | cliTick dt => rfl
+  | cliDisconnect => rfl
+  | cliSendPackets => rfl
+  | cliTransportDisconnect => rfl
+  | srvSend ch m => rfl
+  | srvRecv ch => rfl
+  | srvTick dt => rfl
+  | srvDisconnect => rfl
+  | srvSendPackets => rfl
+  | srvDisconnectAll => rfl
+
+theorem runNF_of_D {a : AEAD} {cid : Nat} {tok : ConnectToken} : ∀ (ops : List FSOp) (fs : FS), KeyInv cid tok fs →
+    runSS a cid fs ops = true → runNFD a cid fs ops = true → runNF a cid fs ops = true
+  | [], _, _, _, _ => rfl
+  | op :: ops, fs, h, hss, hd => by
+    simp only [runSS, Bool.and_eq_true] at hss
+    simp only [runNFD, Bool.and_eq_true] at hd
+    simp only [runNF, Bool.and_eq_true]
+    refine ⟨opNF_of_D h hss.1 hd.1, ?_⟩
+    cases hs : fs.step a cid op with
+    | none => rfl
+    | some fs' =>
+      rw [hs] at hss hd
+      exact runNF_of_D ops fs' (step_keyInv h hss.1 hs) hss.2 hd.2
+
+/-- **from an established session, the key part of `NoForgeryRun` is an invariant**: the datagram-level hypothesis
+    suffices -/
+theorem noForgery_of_D {a : AEAD} {cfg : Cfg} {cid : Nat} {fs0 : FS} {ops : List FSOp} (he : Established cfg cid fs0)
+    (hss : SingleSessionRun a cid fs0 ops) (hd : NoForgeryRunD a cid fs0 ops) : NoForgeryRun a cid fs0 ops :=
+  runNF_of_D ops fs0 (keyInv_of_established he) hss hd
 
 end RenetVerif.FullStack
